@@ -39,7 +39,8 @@ def cl(label, text, tags=""):
 
 
 class Contract:
-    def __init__(self, qual, **kw):
+    def __init__(_s, qual, **kw):
+        self = _s
         self.qual = qual
         self.params = {k: T(v) for k, v in kw.pop("params", {}).items()}
         self.self_ty = kw.pop("self", None)
@@ -166,3 +167,15 @@ def load_contracts():
         spec = importlib.util.spec_from_file_location(name, path)
         mod = importlib.util.module_from_spec(spec)
         spec.loader.exec_module(mod)
+
+
+def canary(base, name, tags, **extra):
+    """a copy of contract `base` with deliberately false extra clauses (labels start with CANARY):
+    they must FAIL; a canary that verifies means the encoding is unsound."""
+    b = CONTRACTS[base]
+    c = Contract(f"{base}#canary_{name}", **{"self": b.self_ty}, params=dict(b.params),
+                 returns=b.returns, requires=list(b.requires) + list(extra.get("requires", [])),
+                 ensures=list(extra.get("ensures", [])), modifies=list(extra.get("modifies", b.modifies)),
+                 loops=extra.get("loops", b.loops), tags=tags, pure=b.pure, locals={k: v for k, v in b.locals.items()})
+    CONTRACTS[c.qual] = c
+    return c
